@@ -20,6 +20,71 @@ SEEDS = ["", "/", "//", "/profile/", "/\\evil.example", "/\t/evil.example", "/\n
          "/%2Fevil.example/?user=localuser", "/%2fevil.example?user=a", "/showAuthToken?user=bob", "/%2F%2Fevil.example/?user=x&y=1",
          "/x/..%2F..%2F/evil.example?user=a"]
 
+# the name the harness addresses keymasterd by for the `own` carrier and in flows (harness: vfC17OwnHost)
+OWN_HOST = "keymaster.example.com"
+# ways of naming keymasterd's own origin in front of a path: the destination is then an absolute or scheme-relative
+# URL of the server itself, followed by a string of the same adversarial grammar
+OWN_PREFIXES = ["https://" + OWN_HOST, "http://" + OWN_HOST.upper(), "//" + OWN_HOST, "HTTPS://" + OWN_HOST + ":443",
+                "https://Keymaster.Example.Com", "https://" + OWN_HOST + ".", "https://user@" + OWN_HOST, "https:" + OWN_HOST,
+                "https:/" + OWN_HOST, "/" + OWN_HOST, "https://" + OWN_HOST + "\\@evil.example", "https:\\\\" + OWN_HOST]
+
+
+def gen_own(rng, pool, nrandom):
+    out = [p + d for d in SEEDS for p in OWN_PREFIXES[:3]]
+    for _ in range(nrandom):
+        out.append(rng.choice(OWN_PREFIXES) + rng.choice(pool))
+    return out
+
+
+def gen_flows(rng, pool, nrandom):
+    """Histories of one browser on /auth/oauth2/login (B) and /auth/oauth2/callback (C): any number of attempts begun
+    (presenting no cookie, the jar's cookie, or an earlier attempt's), completed in any order, once or twice, with the
+    state of one attempt and the cookie of the same or another one."""
+    flows = []
+    safe = "/idp/oauth2/authorize?client_id=a"
+    for d in SEEDS:                                   # a restart in both orders for every corpus string
+        flows.append([("B", safe, "n"), ("B", d, "j"), ("C", 1, 1), ("C", 0, 0)])
+        flows.append([("B", d, "n"), ("B", None, "j"), ("C", 0, 0), ("C", 1, 1), ("C", 0, 1)])
+    for _ in range(nrandom):
+        steps, nb, live = [], 0, []
+        for _ in range(rng.choice([2, 3, 4, 5, 6, 8])):
+            if nb == 0 or (rng.random() < 0.5 and nb < 4):
+                d = rng.choice(pool) if rng.random() < 0.85 else None
+                k = rng.choice(["j", "j", "j", "n"] + [str(x) for x in range(nb)])
+                steps.append(("B", d, k))
+                live.append(nb)
+                nb += 1
+            else:
+                i = rng.randrange(nb)
+                j = i if rng.random() < 0.7 else rng.randrange(nb)
+                steps.append(("C", i, j))
+        for i in live:                                # every attempt is eventually completed
+            steps.append(("C", i, i))
+        flows.append(steps)
+    return flows
+
+
+def flow_op(steps):
+    out = ["flow"]
+    for st in steps:
+        if st[0] == "B":
+            out += ["B", c.hexs(st[1]) if st[1] else "-", st[2]]
+        else:
+            out += ["C", str(st[1]), str(st[2])]
+    return " ".join(out)
+
+
+def describe_flow(op):
+    t = op.split()[1:]
+    out = []
+    for k in range(0, len(t), 3):
+        if t[k] == "B":
+            out.append("begin(dest=%s, cookie=%s)" % (json.dumps(c.unhexs(t[k + 1])) if t[k + 1] != "-" else "none",
+                                                    {"n": "none", "j": "jar"}.get(t[k + 2], "of attempt " + t[k + 2])))
+        else:
+            out.append("callback(state of attempt %s, cookie of attempt %s)" % (t[k + 1], t[k + 2]))
+    return "; ".join(out)
+
 
 def gen(rng, n):
     out = list(SEEDS)
@@ -43,22 +108,38 @@ def run(ctx):
     # carriers other than the form field: the same strings as the path of a same-host Referer, with no
     # login_destination field at all (the handlers must then fall back to the profile page)
     carriers = ["-"] * len(dests)
+    pool = list(dests)
     extra = list(SEEDS) + [d for d in dests[len(SEEDS):] if ctx.rng.random() < 0.12]
     for d in extra:
         for cr in ("ref", "ref2"):
             dests.append(d)
             carriers.append(cr)
-    ops = ["dest %s %s" % (c.hexs(d), cr) for d, cr in zip(dests, carriers)]
+    # round 5: the server's own origin named in front of the string (request addressed to that host), and
+    # histories of the federated flow
+    own = gen_own(ctx.rng, pool, 150 if ctx.quick() else 4000)
+    flows = [flow_op(f) for f in gen_flows(ctx.rng, pool + own, 200 if ctx.quick() else 5000)]
+    if ctx.replay:
+        rflows = [v["replay"]["flow"] for v in rp.get("violations", []) if "flow" in v.get("replay", {})]
+        rcar = [v["replay"].get("carrier", "-") for v in rp.get("violations", []) if "dest" in v.get("replay", {})]
+        if rflows or rcar:
+            flows, own = rflows, []
+            carriers[:len(rcar)] = rcar
+    for d in own:
+        dests.append(d)
+        carriers.append("own")
+    ops = ["dest %s %s" % (c.hexs(d), cr) for d, cr in zip(dests, carriers)] + flows
     impl, log, rc = c.run_harness(ctx, "cmd/keymasterd", "C17", ops)
     if rc != 0 or len(impl) != len(ops):
         ctx.broken.append("harness TestVerifC17 did not complete (exit %d, %d/%d lines)" % (rc, len(impl), len(ops)))
         return c.finish(ctx)
+    fimpl = impl[len(dests):]
+    impl = impl[:len(dests)]
     # model on the same destinations, with url.Parse's answer as observed
     mops, locs, owners = [], [], []
     for d, cr, line in zip(dests, carriers, impl):
         f = line.split()
         # a destination that is not in the login_destination field is no destination: the model sees the empty string
-        mops.append("dest %s %s" % (c.hexs(d if cr == "-" else ""), f[2]))
+        mops.append("dest %s %s" % (c.hexs(d if cr in ("-", "own") else ""), f[2]))
         for kv in [("direct=" + f[1])] + f[4:]:
             name, val = kv.split("=", 1)
             locs.append(val)
@@ -83,10 +164,45 @@ def run(ctx):
     for (d, name, v, cr), verdict in zip(jown, verdicts):
         if verdict != "ok":
             nviol += 1
-            how = {"-": "", "ref": " (no login_destination field; the string is the path of a Referer naming the server's own host)",
+            how = {"-": "", "own": " (request addressed to Host %s)" % OWN_HOST, "ref": " (no login_destination field; the string is the path of a Referer naming the server's own host)",
                    "ref2": " (no login_destination field; the string is the path of a scheme-relative Referer naming the server's own host)"}[cr]
             c.add_violation(ctx, "dest=%s" % json.dumps(d), "handler %s emitted Location %r: %s%s" % (
                 name, c.unhexs(v), verdict, how), {"dest": d, "carrier": cr, "handler": name, "location": c.unhexs(v), "judge": verdict})
+    # federated-flow histories: model differential (which callbacks are refused, where the others go), then the
+    # property's predicate on every Location a callback emitted
+    fm_ops, fm_impl, fj, fjown = [], [], [], []
+    fstat = {"flows": len(flows), "callbacks": 0, "callbacks_redirected": 0, "callbacks_refused": 0, "begins": 0,
+             "begins_presenting_a_cookie": 0, "cross_state_cookie_callbacks": 0}
+    for op, line in zip(flows, fimpl):
+        f = line.split()
+        if not f or f[0] != "flow" or len(f) < 2 or "PANIC" in f:
+            ctx.broken.append("federated flow %r: harness answered %r" % (op, line))
+            continue
+        toks = op.split()[1:]
+        fm_ops.append("flow %s %s" % (f[1], " ".join(toks)))
+        fm_impl.append(" ".join(["flow"] + ["refuse" if r.startswith("STATUS") else r for r in f[2:]]))
+        for k in range(0, len(toks), 3):
+            if toks[k] == "B":
+                fstat["begins"] += 1
+                fstat["begins_presenting_a_cookie"] += toks[k + 2] != "n" and k > 0
+            elif toks[k + 1] != toks[k + 2]:
+                fstat["cross_state_cookie_callbacks"] += 1
+        for r in f[2:]:
+            fstat["callbacks"] += 1
+            if r.startswith("STATUS"):
+                fstat["callbacks_refused"] += 1
+            else:
+                fstat["callbacks_redirected"] += 1
+                fj.append("loc " + r)
+                fjown.append((op, r))
+    fmodel = c.run_driver(ctx, "model", fm_ops) if fm_ops else []
+    c.diff_streams(ctx, "federated-login histories (begin/restart/callback) vs KM.LoginDest.frun", fm_ops, fm_impl, fmodel)
+    fverdicts = c.run_driver(ctx, "judge", fj) if fj else []
+    for (op, r), verdict in zip(fjown, fverdicts):
+        if verdict != "ok":
+            nviol += 1
+            c.add_violation(ctx, "flow=%s" % op, "history of federated-login requests %s: a callback emitted Location %r: %s" % (
+                describe_flow(op), c.unhexs(r), verdict), {"flow": op, "steps": describe_flow(op), "location": c.unhexs(r), "judge": verdict})
     # handler Locations must equal what the direct call produced
     for d, line in zip(dests, impl):
         f = line.split()
@@ -97,9 +213,10 @@ def run(ctx):
     kept = sum(1 for d, l in zip(dests, impl) if l.split()[0] == c.hexs(d) and d)
     cleaned = sum(1 for l in impl if l.split()[0] != l.split()[1])
     ctx.coverage.update({
-        "evaluations": len(dests), "locations_judged": len(jops),
+        "evaluations": len(dests) + len(flows), "locations_judged": len(jops) + len(fj),
         "distinct_nontrivial": len(set(d for d, l in zip(dests, impl) if l.split()[0] == c.hexs(d) and d)),
-        "carriers": {k: carriers.count(k) for k in ("-", "ref", "ref2")}, "referer_requests_refused_outright": refused,
+        "carriers": {k: carriers.count(k) for k in ("-", "ref", "ref2", "own")}, "federated_flow_histories": fstat,
+        "own_origin_destinations_kept": sum(1 for cr, l in zip(carriers, impl) if cr == "own" and l.split()[0] != c.hexs("/profile/")), "referer_requests_refused_outright": refused,
         "rule": "destination strings from an adversarial atom grammar + fixed corpus, carried in the login_destination field or as the path of a same-host Referer; non-trivial = distinct strings that pass the filter (are used verbatim as redirect target)",
         "passed_filter": kept, "fell_back_to_profile": len(dests) - kept, "changed_by_http_redirect": cleaned,
         "url_parse_rejected": sum(1 for l in impl if l.split()[2] == "0"),
